@@ -7,6 +7,7 @@ import shutil
 from . import boot
 from .boot import CLOCK
 from .core import (
+    SimLivelock,
     DBCTL, HarnessError, Seams, SimCrash, SimQueue, SimServer, UUIDS,
     run_coro, write_global_config,
 )
@@ -45,6 +46,13 @@ class LogCapture(logging.Handler):
             msg = record.getMessage()
         except Exception:
             msg = str(record.msg)
+        if record.exc_info:
+            import traceback
+            try:
+                msg += '\n' + ''.join(
+                    traceback.format_exception(*record.exc_info))[-1500:]
+            except Exception:
+                pass
         self.records.append((record.levelno, msg))
 
 
@@ -193,6 +201,7 @@ class Harness:
             h.total_iterations += 1
             if h.iterations > h.max_iter:
                 raise HarnessError('iteration cap hit')
+            CLOCK.sleeps = 0
             h._run_hooks(h.pre_iter_hooks)
             await orig_loop()
             h._run_hooks(h.iter_hooks)
@@ -235,6 +244,11 @@ class Harness:
         except HarnessError:
             self._after_crash()
             raise
+        except SimLivelock as exc:
+            # the scheduler never finished a main-loop iteration
+            info.reason = f'error:Livelock:{exc}'
+            info.exc = exc
+            self._after_crash()
         except Exception as exc:  # scheduler error stop (re-raised)
             info.reason = f'error:{type(exc).__name__}:{exc}'
             info.exc = exc
